@@ -159,7 +159,7 @@ func main() {
 		toks []string
 	}
 	var inputs []input
-	cfgs := []string{"Grammar_1.cfg", "Grammar_2.cfg", "Grammar_1r.cfg", "Grammar_2r.cfg"}
+	cfgs := []string{"Grammar_1.cfg", "Grammar_2.cfg", "Grammar_1s.cfg", "Grammar_2s.cfg", "Grammar_1r.cfg", "Grammar_2r.cfg"}
 	for ci, cfg := range cfgs {
 		if ci >= 2 {
 			ci -= 2 // the rich-operand configurations rotate slots like their plain counterparts
